@@ -120,6 +120,207 @@ fn enc_morph(m: &M) -> String {
     )
 }
 
+
+// ---------------------------------------------------------------------------------------------
+// Python extension: call sequences compared with the library
+// ---------------------------------------------------------------------------------------------
+
+fn py_pkg() -> String {
+    let root = std::env::var("VERIF_ROOT").unwrap_or_else(|_| "/verif".to_string());
+    format!("{}/.build/py/pkg", root)
+}
+
+fn py_script() -> String {
+    let root = std::env::var("VERIF_ROOT").unwrap_or_else(|_| "/verif".to_string());
+    format!("{}/pyharness/run_calls.py", root)
+}
+
+fn mode_str(m: Mode) -> &'static str {
+    match m { Mode::A => "A", Mode::B => "B", Mode::C => "C" }
+}
+
+fn dump_list(ml: &MorphemeList<&JapaneseDictionary>, text: &str) -> serde_json::Value {
+    let chars: Vec<char> = text.chars().collect();
+    let mut out = vec![];
+    for m in ml.iter() {
+        let (b, e) = (m.begin_c(), m.end_c());
+        let raw = m.surface().to_string();
+        let slice_ok = b <= e && e <= chars.len() && chars[b..e].iter().collect::<String>() == raw;
+        out.push(serde_json::json!({
+            "b": b, "e": e, "s": raw, "raw": raw, "pos": m.part_of_speech(),
+            "norm": m.normalized_form(), "dform": m.dictionary_form(), "read": m.reading_form(),
+            "did": m.dictionary_id(), "wid": m.word_id().as_raw(), "oov": m.is_oov(), "len": e - b,
+            "syn": m.synonym_group_ids(), "slice_ok": slice_ok,
+        }));
+    }
+    serde_json::Value::Array(out)
+}
+
+/// one Python session: a script of calls, the library's expected answers, the comparison
+fn py_session(run: &mut Run, idx: usize, rng: &mut Rng, w: &World) {
+    use sudachi::dic::subset::InfoSubset;
+    let dic = &w.dic;
+    let create_mode = mode_of(rng.below(3));
+    let ncalls = rng.range(4, 14);
+    let mut calls: Vec<serde_json::Value> = vec![];
+    let mut expect: Vec<Option<serde_json::Value>> = vec![]; // None = only "no crash" is required
+    let mut lists: Vec<(MorphemeList<&JapaneseDictionary>, String)> = vec![];
+    // lists created by split share the parent's input buffer; reusing one of them as `out=` swaps that buffer
+    // under the others, whose morphemes then point into a different text ("stale": only no-crash is required)
+    let mut group: Vec<usize> = vec![];
+    let mut stale: Vec<bool> = vec![];
+    let mut next_group = 0usize;
+    // a list produced from a stale parent may or may not have been re-pointed to the parent's buffer
+    let mut alt_group: Vec<Option<usize>> = vec![];
+    let mut kept = 0usize;
+    for _ in 0..ncalls {
+        let kind = rng.below(10);
+        if kind < 5 || lists.is_empty() {
+            let text = if rng.chance(1, 8) { String::new() } else { gen_text(rng, w, 10) };
+            let ov = if rng.chance(1, 3) { Some(mode_of(rng.below(3))) } else { None };
+            let out = if !lists.is_empty() && rng.chance(1, 3) { Some(rng.below(lists.len())) } else { None };
+            let keep = rng.chance(1, 4);
+            let eff = ov.unwrap_or(create_mode);
+            let mut tok = StatefulTokenizer::create(dic, false, eff);
+            tok.reset().push_str(&text);
+            let ok = tok.do_tokenize().is_ok();
+            calls.push(serde_json::json!({"op": "tokenize", "text": text, "mode": ov.map(mode_str), "out": out, "keep": keep}));
+            if !ok {
+                expect.push(Some(serde_json::json!({"err": true, "mode": mode_str(create_mode)})));
+                continue;
+            }
+            if let Some(i) = out { if stale[i] { /* reusing a stale list is fine: it is overwritten */ } }
+            let mut ml = match out { Some(i) => std::mem::replace(&mut lists[i].0, MorphemeList::empty(dic)), None => MorphemeList::empty(dic) };
+            ml.collect_results(&mut tok).unwrap();
+            let d = dump_list(&ml, &text);
+            let n = ml.len();
+            if keep && n > 0 { kept += 1; }
+            match out {
+                Some(i) => {
+                    lists[i] = (ml, text.clone());
+                    for j in 0..lists.len() { if j != i && (group[j] == group[i] || Some(group[j]) == alt_group[i]) { stale[j] = true; } }
+                    stale[i] = false;
+                }
+                None => { lists.push((ml, text.clone())); group.push(next_group); next_group += 1; stale.push(false); alt_group.push(None); }
+            }
+            expect.push(Some(serde_json::json!({"ok": true, "mode": mode_str(create_mode), "ms": d, "n": n})));
+        } else if kind < 8 {
+            let l = rng.below(lists.len());
+            if lists[l].0.len() == 0 && !stale[l] { continue; }
+            if stale[l] && lists[l].0.len() == 0 { continue; }
+            let index = rng.below(lists[l].0.len());
+            let mode = mode_of(rng.below(3));
+            let add_single = rng.chance(1, 2);
+            // `out=`: an unrelated, earlier list is reused for the result in a third of the cases
+            let outl = if rng.chance(1, 3) && lists.len() >= 2 { let o = rng.below(lists.len()); if o != l { Some(o) } else { None } } else { None };
+            calls.push(serde_json::json!({"op": "split", "list": l, "index": index, "mode": mode_str(mode), "add_single": add_single, "out": outl}));
+            if outl.is_some() { run.bump("python-split-with-out"); }
+            if stale[l] {
+                // the Python side may raise (a Rust panic surfaces as a catchable PanicException) or return anything
+                match outl {
+                    Some(o) => { stale[o] = true; alt_group[o] = Some(group[l]); }
+                    // `empty_clone` of the stale parent: shares its buffer
+                    None => { lists.push((MorphemeList::empty(dic), String::new())); group.push(group[l]); stale.push(true); alt_group.push(None); }
+                }
+                expect.push(None);
+                run.bump("python-stale-split");
+                continue;
+            }
+            // expected = what the Rust library gives for this morpheme: its declared units, or (add_single) the morpheme itself
+            let mut out = lists[l].0.empty_clone();
+            let splitted = lists[l].0.split_into(mode, index, &mut out).unwrap_or(false);
+            if add_single && !splitted { lists[l].0.copy_slice(index, index + 1, &mut out); }
+            let text = lists[l].1.clone();
+            let d = dump_list(&out, &text);
+            let n = out.len();
+            match outl {
+                Some(o) => {
+                    if splitted || (add_single && !splitted) { run.bump("python-split-into-foreign-out"); }
+                    // the reused list now shares the parent's text; lists that shared its old buffer are unaffected
+                    // (split_into re-points `out` to the parent's buffer instead of swapping)
+                    lists[o] = (out, text);
+                    if splitted || add_single { group[o] = group[l]; alt_group[o] = None; }
+                    stale[o] = false;
+                }
+                None => { lists.push((out, text)); group.push(group[l]); stale.push(false); alt_group.push(None); }
+            }
+            expect.push(Some(serde_json::json!({"ok": true, "mode": mode_str(create_mode), "ms": d, "n": n})));
+        } else if kind < 9 {
+            let q = if rng.chance(2, 3) { rng.pick(&w.lex.rows).surface.clone() } else { gen_text(rng, w, 3) };
+            calls.push(serde_json::json!({"op": "lookup", "query": q}));
+            let mut ml = MorphemeList::empty(dic);
+            match ml.lookup(&q, InfoSubset::all()) {
+                Ok(_) => {
+                    let d = dump_list(&ml, &q);
+                    let n = ml.len();
+                    lists.push((ml, q.clone()));
+                    group.push(next_group); next_group += 1; stale.push(false); alt_group.push(None);
+                    expect.push(Some(serde_json::json!({"ok": true, "mode": mode_str(create_mode), "ms": d, "n": n})));
+                }
+                Err(_) => {
+                    lists.push((MorphemeList::empty(dic), q.clone()));
+                    group.push(next_group); next_group += 1; stale.push(false); alt_group.push(None);
+                    expect.push(Some(serde_json::json!({"err": true, "mode": mode_str(create_mode)})));
+                }
+            }
+        } else {
+            calls.push(serde_json::json!({"op": "stale"}));
+            expect.push(None);
+        }
+    }
+    let _ = kept;
+    let script = serde_json::json!({
+        "pkg": py_pkg(), "config": w.wd.path.join("cfg.json"), "resource_dir": w.wd.path, "mode": mode_str(create_mode), "calls": calls,
+    });
+    let spath = w.wd.path.join("script.json");
+    std::fs::write(&spath, serde_json::to_string(&script).unwrap()).unwrap();
+    let outp = Command::new("python3").arg(py_script()).arg(&spath).output();
+    run.bump("kind:python-session");
+    run.bump_by("python-calls", calls.len() as u64);
+    let line = format!("C19 pysession idx={} world={} create_mode={} calls={}", idx, w.desc.join("|"), mode_str(create_mode), serde_json::to_string(&calls).unwrap());
+    let outp = match outp {
+        Ok(o) => o,
+        Err(e) => { run.fail_with_line(idx, &line, "c19:py:spawn", &format!("cannot start python3: {}", e)); return; }
+    };
+    let stdout = String::from_utf8_lossy(&outp.stdout).to_string();
+    let got: Vec<serde_json::Value> = stdout.lines().filter_map(|l| serde_json::from_str(l).ok()).collect();
+    let done = got.last().map_or(false, |v| v.get("done").is_some());
+    if !outp.status.success() || !done || got.len() != calls.len() + 1 {
+        run.fail_with_line(idx, &line, "c19:py:crash", &format!("interpreter did not survive the call sequence: status {:?}, {} of {} answers, stderr {}",
+            outp.status.code(), got.len().saturating_sub(if done { 1 } else { 0 }), calls.len(), String::from_utf8_lossy(&outp.stderr).chars().rev().take(300).collect::<String>().chars().rev().collect::<String>()));
+        return;
+    }
+    for (k, exp) in expect.iter().enumerate() {
+        let g = &got[k];
+        let Some(exp) = exp else { continue };
+        let what = if exp.get("err").is_some() {
+            if g.get("err").is_none() { Some("library reports an error, Python returned a result".to_string()) } else { None }
+        } else if g.get("err").is_some() {
+            Some(format!("Python raised {} ({}) where the library succeeds", g["err"], g.get("msg").cloned().unwrap_or_default()))
+        } else if g["ms"] != exp["ms"] {
+            Some(format!("morphemes differ: python {} vs library {}", g["ms"].to_string().chars().take(300).collect::<String>(), exp["ms"].to_string().chars().take(300).collect::<String>()))
+        } else if g["n"] != exp["n"] {
+            Some(format!("len() = {} vs {}", g["n"], exp["n"]))
+        } else { None };
+        let mode_bad = g.get("mode").map_or(false, |m| m != &exp["mode"]);
+        if let Some(wh) = what {
+            run.fail_with_line(idx, &line, "c19:py:result", &format!("call {} {}: {}", k, calls[k], wh));
+            return;
+        }
+        if mode_bad {
+            run.fail_with_line(idx, &line, "c19:py:mode", &format!("after call {} {} the tokenizer's mode is {} (created with {})", k, calls[k], g["mode"], exp["mode"]));
+            return;
+        }
+        if let Some(ms) = g["ms"].as_array() {
+            if ms.iter().any(|m| m["slice_ok"] == serde_json::Value::Bool(false)) {
+                run.fail_with_line(idx, &line, "c19:py:slice", &format!("call {}: text[begin:end] != raw_surface", k));
+                return;
+            }
+        }
+    }
+    run.bump("python-session-ok");
+}
+
 pub fn cli_binary() -> String {
     let root = std::env::var("VERIF_ROOT").unwrap_or_else(|_| "/verif".to_string());
     format!("{}/.build/cli/debug/sudachi", root)
@@ -178,6 +379,14 @@ sequences) + call-sequence runs of the built extension (see extra.python).".into
             Ok(w) => w,
             Err(e) => { run.bump(&format!("world-error:{}", e.chars().take(50).collect::<String>())); continue; }
         };
+        if idx % 25 == 3 {
+            if std::path::Path::new(&format!("{}/sudachipy/sudachipy.so", py_pkg())).exists() {
+                py_session(run, idx, &mut rng, w);
+            } else {
+                run.fail_with_line(idx, "", "c19:py:not-built", "the Python extension was not built");
+            }
+            continue;
+        }
         // file
         let nlines = rng.range(1, 5);
         let mut file = String::new();
